@@ -91,6 +91,14 @@ Theorem C03_folder_set_part_refuted : exists fs d n b,
 Proof. exact f34_refuted. Qed.
 Print Assumptions C03_folder_set_part_refuted.
 
+(* F35 before its repair (Container.parts listed the file, not memory): a manifest.rdf provided through the API on a
+   path-opened package that had none is replaced by save; with the repair (fixes/F35-*.diff) save keeps it *)
+Theorem C03_parts_listing_refuted : exists (s : cfs * cdoc) (o1 o2 : cop) (n : name),
+  (let s1 := fst (cstep FIXED35OFF s o1) in let s2 := fst (cstep FIXED35OFF s1 o2) in cview (fst s2) (snd s2) n <> cview (fst s1) (snd s1) n) /\
+  (let s1 := fst (cstep FIXED s o1) in let s2 := fst (cstep FIXED s1 o2) in cview (fst s2) (snd s2) n = cview (fst s1) (snd s1) n).
+Proof. exact f35_refuted. Qed.
+Print Assumptions C03_parts_listing_refuted.
+
 (* the hypotheses are inhabited: a path-opened zip with an unread part, a parsed and edited content, an added and a deleted part *)
 Example C03_example : WFd cxml cbytes Z ex_fs ex_doc /\ (forall x, cpar (cser x) = x) /\ (forall x, cmask (cstamp x) = cmask x).
 Proof. exact (conj ex_doc_wf (conj cpar_cser cmask_cstamp)). Qed.
